@@ -3,12 +3,12 @@
    from_record_column / extract_row_from_record), hand-modelled: the code works on Vec,
    &str and enums, outside the tools/rs2v.py subset.  Definitions only, no proofs.
 
-   Faithful to the code AS IT IS, including what it gets wrong:
-     * Float values are always written with set_float8, also into a 4-byte Float4 column;
-     * RecordView::record_column_count returns 0 when the record has no payload bytes,
-       so every column of such a record reads as NULL ("missing");
+   Faithful to the code AS IT IS (tree with the fixes f7ee439 and b5de181), including what it
+   still gets wrong:
      * a Blob whose bytes look like a TOAST pointer comes back as ToastPointer;
      * the u16 end-offset accumulation overflows (dev profile: panic) above 65535 bytes.
+   (Before f7ee439 record_column_count returned 0 for a record without payload bytes, and
+   before b5de181 Float values were written with set_float8 into 4-byte Float4 columns.)
    Conventions: bytes are Z in [0,256); floats are their IEEE bit patterns (f64: u64,
    f32: u32); text is its UTF-8 bytes; nat only for list positions and fuel. *)
 From Coq Require Import ZArith List Bool.
@@ -193,7 +193,28 @@ Definition vector_bytes (fs : list Z) : list Z := le 4 (blen fs) ++ flat_map (le
 Definition decimal_bytes (digits scale : Z) : list Z :=
   (if digits <? 0 then 128 else 0) :: le 2 scale ++ le 16 digits.
 
-(* OwnedValue::set_in_builder (set_int_auto inlined) *)
+(* `value as f32` for an f64 bit pattern (x86-64 cvtsd2ss, default rounding: to nearest, ties
+   to even; overflow to infinity; gradual underflow; NaNs quieted, top payload bits kept) *)
+Definition round_shift (sig sh : Z) : Z :=
+  let q := sig / 2 ^ sh in
+  let r := sig mod 2 ^ sh in
+  let half := 2 ^ (sh - 1) in
+  if (r >? half) || ((r =? half) && Z.odd q) then q + 1 else q.
+Definition f64_to_f32 (x : Z) : Z :=
+  let sg := (x / 2 ^ 63) * 2 ^ 31 in
+  let e := (x / 2 ^ 52) mod 2048 in
+  let m := x mod 2 ^ 52 in
+  if e =? 2047 then
+    if m =? 0 then sg + 255 * 2 ^ 23 else sg + 255 * 2 ^ 23 + 2 ^ 22 + (m / 2 ^ 29) mod 2 ^ 22
+  else if e =? 0 then sg
+  else
+    let ex := e - 1023 in
+    let sh := if ex >=? -126 then 29 else 29 + (-126 - ex) in
+    let base := if ex >=? -126 then (ex + 126) * 2 ^ 23 else 0 in
+    let mag := base + round_shift (2 ^ 52 + m) sh in
+    sg + (if mag >=? 255 * 2 ^ 23 then 255 * 2 ^ 23 else mag).
+
+(* OwnedValue::set_in_builder (set_int_auto and set_float_auto inlined) *)
 Definition set_in_builder (s : schema) (st : bstate) (col : Z) (v : value) : bres :=
   match v with
   | VNull => set_null s st col
@@ -205,7 +226,11 @@ Definition set_in_builder (s : schema) (st : bstate) (col : Z) (v : value) : bre
       | Some TBool => set_fixed_bytes s st col [bool_byte (negb (i =? 0))]
       | _ => set_fixed_bytes s st col (le 8 i)
       end
-  | VFloat bits => set_fixed_bytes s st col (le 8 bits)          (* always set_float8 *)
+  | VFloat bits =>
+      match column s col with
+      | Some TFloat4 => set_fixed_bytes s st col (le 4 (f64_to_f32 bits))   (* set_float4(value as f32) *)
+      | _ => set_fixed_bytes s st col (le 8 bits)
+      end
   | VText b => set_var_bytes s st col b
   | VBlob b => set_var_bytes s st col b
   | VVector fs => set_var_bytes s st col (vector_bytes fs)
@@ -299,7 +324,7 @@ Fixpoint rcc_loop (cols : schema) (consumed avail count : Z) : Z :=
   end.
 Definition record_column_count (s : schema) (data : list Z) : res Z :=
   hl <- header_len data ;;
-  if blen data <=? hl then Ok 0 else Ok (rcc_loop s 0 (blen data - hl) 0).
+  if blen data <? hl then Ok 0 else Ok (rcc_loop s 0 (blen data - hl) 0).
 
 (* is_null: (null_bitmap()[col/8] & (1 << (col%8))) != 0 *)
 Definition is_null (s : schema) (data : list Z) (col : Z) : res bool :=
@@ -455,8 +480,12 @@ Fixpoint utf8_ok_fuel (fuel : nat) (b : list Z) : bool :=
 Definition utf8_ok (b : list Z) : bool := utf8_ok_fuel (S (length b)) b.
 
 Definition f64_ok (x : Z) : bool := in_u 64 x.
-(* an f64 bit pattern that is the exact widening of some normal/zero/inf f32 (subnormal
-   f32 values and NaNs are left out of the demanded domain: conservative) *)
+(* Float values that fit a Float4 column: the f64 bit patterns that are the exact widening of
+   a zero, an infinity or a NORMAL f32 (exponent 897..1150, low 29 mantissa bits zero).  These
+   are stored as `value as f32` and read back as `f32 as f64` unchanged.  Every other f64 is
+   rounded by the store (nearest-even, overflow to inf, underflow) and does not come back.
+   Left out of the demanded domain although they do come back on this hardware: f64 values that
+   are exact SUBNORMAL f32 values, and NaNs (payload handling is the CPU's). *)
 Definition f32_representable (x : Z) : bool :=
   in_u 64 x &&
   let e := (x / 2 ^ 52) mod 2048 in
@@ -523,17 +552,10 @@ Definition fits_row (s : schema) (row : list value) : bool :=
 
 Definition is_vnull (v : value) : bool := match v with VNull => true | _ => false end.
 
-(* Recorded defects of the unchanged tree (known_findings.d/C31.json), as classes of
-   (schema, row):
-     1  no fixed-width column, no variable bytes, yet some value is not NULL
-        (empty text/blob): record_column_count = 0 makes every column read as NULL;
-     2  a non-NULL value in a Float4 column: written as 8 bytes by set_float8;
-     3  a 17-byte Blob starting 0xFE in a Blob column: read back as ToastPointer. *)
-Fixpoint has_float4 (s : schema) (row : list value) : bool :=
-  match s, row with
-  | t :: s', v :: r => (match t with TFloat4 => negb (is_vnull v) | _ => false end) || has_float4 s' r
-  | _, _ => false
-  end.
+(* Recorded defect of the tree (known_findings.d/C31.json), as a class of (schema, row):
+     3  a 17-byte Blob starting 0xFE in a Blob column: read back as ToastPointer.
+   Classes 1 (record without payload bytes read as all NULL) and 2 (Float4 written as 8
+   bytes) were repaired by f7ee439 and b5de181 and no longer exist. *)
 Fixpoint has_toast_blob (s : schema) (row : list value) : bool :=
   match s, row with
   | t :: s', v :: r =>
@@ -541,7 +563,4 @@ Fixpoint has_toast_blob (s : schema) (row : list value) : bool :=
   | _, _ => false
   end.
 Definition known_class (s : schema) (row : list value) : Z :=
-  if (total_fixed s =? 0) && (total_var s row =? 0) && negb (forallb is_vnull row) then 1
-  else if has_float4 s row then 2
-  else if has_toast_blob s row then 3
-  else 0.
+  if has_toast_blob s row then 3 else 0.
